@@ -11,13 +11,17 @@ of `element_if.is_valid` (Model/ElemValid.lean, C15) and `is_syntax_valid` + its
 * isolation  `fault_k_isolated`  — when the value is otherwise admissible the reported codes are
   exactly `{k}`; in general (`fault_isolated`) they are exactly the implied set `Spec d ctx v`.
 
-The walker part (unknown segment; the local steps for max_use, repeat, mandatory segment) is at the end of this
-file, with the lemmas in Proofs/C03Walker.lean.
+The walker part is at the end of this file: unknown segment and the local steps for max_use, repeat, mandatory
+segment (lemmas in Proofs/C03Walker.lean), then the three run-level statements for ONE structural fault in an
+otherwise conformant document — `max_use_exceeded_reported`, `loop_repeat_reported`, `mandatory_missing_reported`
+(lemmas in Proofs/C03Run*.lean) — with the witnesses for the corners in which they are false.
 -/
 import Pyx12Verif.Props.C15
 import Pyx12Verif.Props.C14
 import Pyx12Verif.Proofs.C03Walker
 import Pyx12Verif.Props.C02
+import Pyx12Verif.Proofs.C03RunHRun
+import Pyx12Verif.Proofs.C03RunFacts
 
 namespace Pyx12Verif.C03
 open Pyx12Verif.ElemValid Pyx12Verif.Validation
@@ -612,19 +616,6 @@ theorem max_use_within_silent_step (lip : List Nat) (lkey : PathKey) (loopNid : 
     · exact absurd h0 h.1
     · omega
 
-/-- the full statement: whenever `walk` answers with a plain segment node (no loop entered) whose count had
-    reached its finite `max_use`, the error is among those reported.
-    GAP: needs the inversion "a result with `pushes = []` and `node = some ip` was produced by `scanSegMatched`
-    at `ip` with counter key `keyAt root ip`" (case analysis of `walkUp`/`scanChildren`, and
-    `keyAt root (lip ++ [i]) = keyAt root lip ++ [c.comp]`); `max_use_exceeded_reported_step` is the step it
-    reduces to. -/
-def max_use_exceeded_reported_full : Prop :=
-  ∀ (k : Consts) (root : List Node) (rootId : Nat) (cnt : Counter) (cur ip : List Nat) (s : SegData) (c : Node),
-    nodeAt root ip = some c → c.isSeg = true →
-    (walk k root rootId cnt cur s).node = some ip → (walk k root rootId cnt cur s).pushes = [] →
-    c.usage ≠ 2 → c.rep ≠ 0 → c.rep ≤ cnt.get (keyAt root ip) →
-    (ErrKind.segMaxCount, ip) ∈ (walk k root rootId cnt cur s).st.errs
-
 /-- **loop beyond repeat, local step** (`_check_loop_usage`): entering a loop whose instance count already equals
     a finite `repeat` draws `loopMaxCount` (997 code 4) at the loop node -/
 theorem loop_repeat_reported_step (ip : List Nat) (key : PathKey) (usage rep : Nat) (st : WState) (hu : usage ≠ 2)
@@ -641,15 +632,6 @@ theorem loop_repeat_reported_step (ip : List Nat) (key : PathKey) (usage rep : N
   rw [get_resetTo_other _ _ _ this]
   exact ⟨hr, by omega⟩
 
-/-- full statement.  GAP: inversion of `walk` for results with `pushes ≠ []` (the innermost pushed loop is the one
-    `gotoSegMatch` counted), same kind of case analysis as above. -/
-def loop_repeat_reported_full : Prop :=
-  ∀ (k : Consts) (root : List Node) (rootId : Nat) (cnt : Counter) (cur lp : List Nat) (s : SegData)
-    (lid pos usage rep : Nat) (w : Bool) (ch : List Node),
-    (walk k root rootId cnt cur s).pushes.getLast? = some lp → (walk k root rootId cnt cur s).node ≠ none →
-    nodeAt root lp = some (.loop lid pos usage rep w ch) → usage ≠ 2 → rep ≠ 0 → rep ≤ cnt.get (keyAt root lp) →
-    (ErrKind.loopMaxCount, lp) ∈ (walk k root rootId cnt cur s).st.errs
-
 /-- **missing mandatory segment, local steps** (`_flush_mandatory_segs`): a pending entry is reported (997 code
     3, at its own node) when the walk settles at a different position, and is carried on, unreported, while the
     walk stays at its position — which is why the report can come one or more segments after the gap -/
@@ -662,21 +644,6 @@ theorem mandatory_missing_deferred_step (st : WState) (curPos : Option Nat) (p :
     p ∈ (flush st curPos).pending ∧ (flush st curPos).errs = st.errs ++
       (st.pending.filter (fun q => some q.pos != curPos)).map (fun q => (ErrKind.mandatoryMissing, q.ip)) :=
   ⟨flush_keeps st curPos p hp hpos, rfl⟩
-
-/-- full statement: a required segment child `c` (index `j`) of the loop at `lip` that has not occurred, lies at
-    a position from the start node's on and strictly before the matched sibling's, and does not match the data
-    segment, is reported missing when the walk answers with that later sibling.
-    GAP: the scan-order invariant of C02 (`scanChildren` visits the children in index order, positions are
-    sorted — `posSorted` of C16) and the inversion of `scanChildren`; `mandatory_missing_reported_step` is the
-    flush it ends in. -/
-def mandatory_missing_reported_full : Prop :=
-  ∀ (k : Consts) (root : List Node) (rootId : Nat) (cnt : Counter) (lip : List Nat) (a b j : Nat) (s : SegData)
-    (na nb c : Node),
-    nodeAt root (lip ++ [a]) = some na → nodeAt root (lip ++ [b]) = some nb → nodeAt root (lip ++ [j]) = some c →
-    c.isSeg = true → c.usage = 0 → isMatch k c s = false → cnt.get (keyAt root (lip ++ [j])) = 0 →
-    na.pos ≤ c.pos → c.pos < nb.pos →
-    (walk k root rootId cnt (lip ++ [a]) s).node = some (lip ++ [b]) → (walk k root rootId cnt (lip ++ [a]) s).pushes = [] →
-    (ErrKind.mandatoryMissing, lip ++ [j]) ∈ (walk k root rootId cnt (lip ++ [a]) s).st.errs
 
 /-! non-vacuity: a two-level map, ids 10/11/12 known, 99 unknown -/
 
@@ -709,5 +676,465 @@ example : (ErrKind.mandatoryMissing, [0, 1]) ∈ (walk exK exMap 0 [] [0, 0] (ex
 /-- loop repeat: the third instance of the inner loop (repeat 2) draws `loopMaxCount` at the loop -/
 example : (ErrKind.loopMaxCount, [0, 2]) ∈
     (walk exK exMap 0 [([(1, 0), (2, 0)], 2)] [0, 2, 0] (exSeg 12)).st.errs := by decide
+
+end Pyx12Verif.C03
+
+/-! ### structural kinds at run level: ONE structural fault in an otherwise conformant document
+
+Setting as in `walk_accepts_generated` (C02): `root[a]` is the interchange loop, its child `g` the group loop; ISA and
+GS are pinned with `forceWalkCounterToLoopStart` on an empty counter and the walk starts at the GS node `[a, g, 0]`.
+The rest of the group carries the fault (`pre ++ x :: post`), the rest of the interchange (`out2`) and what follows at
+top level (`out3`) are conformant.  `RunErrAt … pre x post e` (Proofs/C03RunSpec.lean): every segment is answered
+with the map node it instantiates, the step on `x` reports exactly `[e]`, every other step reports nothing and leaves
+nothing pending — i.e. all the other segments are matched exactly as in `RunOK`.
+
+Faulty derivations (small inductive relations on top of `GenList`):
+* `XList K e …` (Proofs/C03RunSpec.lean): one instance too many of a counted node; `x` = first segment of the surplus
+  instance;
+* `HList K e …` (Proofs/C03RunHSpec.lean): one required segment, not the first of its loop, left out ("hole"); `x` =
+  the segment on which the model reports it, i.e. the first segment emitted after the hole.
+Proofs: Proofs/C03Run*.lean (the part for the hole runs over a generalisation of the C02 simulation invariant in
+which a segment child positioned strictly before the current child may be outstanding). -/
+
+namespace Pyx12Verif.C03
+open Pyx12Verif.MapSkel Pyx12Verif.Walker Pyx12Verif.WalkerGen Pyx12Verif.WalkerGenW
+
+/-- **(1) segment beyond max_use.**  A segment node (index path `ip`) with finite `max_use = m ≥ 1` instantiated
+    `m + 1` times (`XReps.over`: `k = c.rep` instances were emitted, then one more): the walk over the faulty sequence
+    answers the `(m+1)`-th instance `x` with that very node and reports exactly one error there, `segMaxCount` (997
+    code 5) attached to the node; every other segment is matched as in the conformant run, without error. -/
+theorem max_use_exceeded_reported (K : Consts) (root : List Node) (rootId : Nat) (ip : List Nat)
+    (hwf : WFMap root = true) (hun : Unambiguous K root = true)
+    {a isaId isaPos isaU isaRep : Nat} {isaW : Bool} {isaSeg : Node} {isaRest : List Node}
+    (hroot : root[a]? = some (.loop isaId isaPos isaU isaRep isaW (isaSeg :: isaRest))) (hisa : isaSeg.isSeg = true)
+    {g gsId gsPos gsU gsRep : Nat} {gsW : Bool} {gsSeg : Node} {gsRest : List Node}
+    (hgs : (isaSeg :: isaRest)[g]? = some (.loop gsId gsPos gsU gsRep gsW (gsSeg :: gsRest))) (hgseg : gsSeg.isSeg = true)
+    (hopt0 : ∀ (j : Nat) (c : Node), j < a → root[j]? = some c → optional c = true)
+    (hopt1 : ∀ (j : Nat) (c : Node), 0 < j → j < g → (isaSeg :: isaRest)[j]? = some c → optional c = true)
+    {pre : List Emit} {x : Emit} {post out2 out3 : List Emit}
+    (h1 : XList K (ErrKind.segMaxCount, ip) [a, g] 1 gsRest pre x post)
+    (h2 : GenList K [a] (g + 1) ((isaSeg :: isaRest).drop (g + 1)) out2)
+    (h3 : GenList K [] (a + 1) (root.drop (a + 1)) out3) :
+    x.1 = ip ∧
+    RunErrAt K root rootId
+      (forceLoopStart (forceLoopStart [] [(isaId, 0)] [(isaId, 0), isaSeg.comp])
+        [(isaId, 0), (gsId, 0)] [(isaId, 0), (gsId, 0), gsSeg.comp])
+      [a, g, 0] pre x (post ++ out2 ++ out3) (ErrKind.segMaxCount, ip) := by
+  refine ⟨?_, over_limit_run K root rootId _ hwf hun (fun hk => by cases hk) hroot hisa hgs hgseg hopt0 hopt1 h1 h2 h3⟩
+  rcases xlist_fault h1 with ⟨_, hx⟩ | ⟨hk, _⟩
+  · exact hx
+  · cases hk
+
+/-- the statement of (2) without the hypothesis `sfList` (the self-follow check for loops with `repeat = 1`) -/
+def loop_repeat_reported_full : Prop :=
+  ∀ (K : Consts) (root : List Node) (rootId : Nat) (lp : List Nat),
+    WFMap root = true → Unambiguous K root = true →
+    ∀ {a isaId isaPos isaU isaRep : Nat} {isaW : Bool} {isaSeg : Node} {isaRest : List Node},
+    root[a]? = some (.loop isaId isaPos isaU isaRep isaW (isaSeg :: isaRest)) → isaSeg.isSeg = true →
+    ∀ {g gsId gsPos gsU gsRep : Nat} {gsW : Bool} {gsSeg : Node} {gsRest : List Node},
+    (isaSeg :: isaRest)[g]? = some (.loop gsId gsPos gsU gsRep gsW (gsSeg :: gsRest)) → gsSeg.isSeg = true →
+    (∀ (j : Nat) (c : Node), j < a → root[j]? = some c → optional c = true) →
+    (∀ (j : Nat) (c : Node), 0 < j → j < g → (isaSeg :: isaRest)[j]? = some c → optional c = true) →
+    ∀ {pre : List Emit} {x : Emit} {post out2 out3 : List Emit},
+    XList K (ErrKind.loopMaxCount, lp) [a, g] 1 gsRest pre x post →
+    GenList K [a] (g + 1) ((isaSeg :: isaRest).drop (g + 1)) out2 →
+    GenList K [] (a + 1) (root.drop (a + 1)) out3 →
+    RunErrAt K root rootId
+      (forceLoopStart (forceLoopStart [] [(isaId, 0)] [(isaId, 0), isaSeg.comp])
+        [(isaId, 0), (gsId, 0)] [(isaId, 0), (gsId, 0), gsSeg.comp])
+      [a, g, 0] pre x (post ++ out2 ++ out3) (ErrKind.loopMaxCount, lp)
+
+/-- **(2) loop beyond repeat.**  A first-seg loop (index path `lp`) with finite `repeat = r ≥ 1` instantiated `r + 1`
+    times: the walk enters the `(r+1)`-th instance all the same (its first segment `x` is answered with the loop's
+    first-segment node `lp ++ [0]`, the counters are reset and counted as for a regular repeat) and reports exactly one
+    error on that step, `loopMaxCount` (997 code 4) attached to the loop node; every other segment — the rest of
+    the surplus instance included — is matched as in the conformant run, without error.
+    PARTIAL w.r.t. `loop_repeat_reported_full`: the hypothesis `sfList K root` (every loop with `repeat = 1` passes the
+    check `Unambiguous` makes for repeatable loops only: no node nested below it can be entered by the loop's own
+    first segment) cannot be dropped, see `loop_repeat_reported_full_false`. -/
+theorem loop_repeat_reported (K : Consts) (root : List Node) (rootId : Nat) (lp : List Nat)
+    (hwf : WFMap root = true) (hun : Unambiguous K root = true) (hsf : sfList K root = true)
+    {a isaId isaPos isaU isaRep : Nat} {isaW : Bool} {isaSeg : Node} {isaRest : List Node}
+    (hroot : root[a]? = some (.loop isaId isaPos isaU isaRep isaW (isaSeg :: isaRest))) (hisa : isaSeg.isSeg = true)
+    {g gsId gsPos gsU gsRep : Nat} {gsW : Bool} {gsSeg : Node} {gsRest : List Node}
+    (hgs : (isaSeg :: isaRest)[g]? = some (.loop gsId gsPos gsU gsRep gsW (gsSeg :: gsRest))) (hgseg : gsSeg.isSeg = true)
+    (hopt0 : ∀ (j : Nat) (c : Node), j < a → root[j]? = some c → optional c = true)
+    (hopt1 : ∀ (j : Nat) (c : Node), 0 < j → j < g → (isaSeg :: isaRest)[j]? = some c → optional c = true)
+    {pre : List Emit} {x : Emit} {post out2 out3 : List Emit}
+    (h1 : XList K (ErrKind.loopMaxCount, lp) [a, g] 1 gsRest pre x post)
+    (h2 : GenList K [a] (g + 1) ((isaSeg :: isaRest).drop (g + 1)) out2)
+    (h3 : GenList K [] (a + 1) (root.drop (a + 1)) out3) :
+    x.1 = lp ++ [0] ∧
+    RunErrAt K root rootId
+      (forceLoopStart (forceLoopStart [] [(isaId, 0)] [(isaId, 0), isaSeg.comp])
+        [(isaId, 0), (gsId, 0)] [(isaId, 0), (gsId, 0), gsSeg.comp])
+      [a, g, 0] pre x (post ++ out2 ++ out3) (ErrKind.loopMaxCount, lp) := by
+  refine ⟨?_, over_limit_run K root rootId _ hwf hun (fun _ => hsf) hroot hisa hgs hgseg hopt0 hopt1 h1 h2 h3⟩
+  rcases xlist_fault h1 with ⟨hk, _⟩ | ⟨_, hx⟩
+  · cases hk
+  · exact hx
+
+/-- **(3) mandatory segment missing.**  A required segment (usage R, index path `ip`, not the first segment of its
+    loop: `HList.gap` / `HListO.gap` sit in a child list that starts at index 1) left out of an otherwise conformant
+    document: exactly one error, `mandatoryMissing` (997 code 3) attached to the missing node, on the step at which the
+    model raises it — the FIRST segment `x` emitted after the hole (`mandatory_segs_missing` does not survive a
+    call), namely
+    * a later sibling of the hole in the same loop instance (`HList.gap`, `TList`): a segment with another id at a
+      later position, or the first segment of a later-positioned first-seg loop; children in between are left out;
+    * when the rest of the instance is left out (`HListO`): a later child (segment of another id and another position,
+      or first-seg loop) of an enclosing loop instance (`HList.under`), or the first segment of the NEXT INSTANCE of the
+      loop containing the hole or of an enclosing loop (`HReps.again`).
+    Every other segment is matched as in the conformant run, without error.
+    Corners excluded by the hypotheses inside `HList …`, each because the statement is false there:
+    `HReps.again` asks that the last segment before the hole is not the repeated loop's own first segment (finding
+    "unreported when only the first segment precedes a repeat of the loop", `mandatory_missing_unreported_witness`);
+    `TList.hitSeg` asks for another id and another position (the pending entry is dropped by id, kept by position:
+    `mandatory_missing_same_position_witness`).  Not covered (no claim): a reporting segment that enters a loop through
+    a transparent wrapper loop, or that lies outside the group (`out2`, `out3`). -/
+theorem mandatory_missing_reported (K : Consts) (root : List Node) (rootId : Nat) (ip : List Nat)
+    (hwf : WFMap root = true) (hun : Unambiguous K root = true)
+    {a isaId isaPos isaU isaRep : Nat} {isaW : Bool} {isaSeg : Node} {isaRest : List Node}
+    (hroot : root[a]? = some (.loop isaId isaPos isaU isaRep isaW (isaSeg :: isaRest))) (hisa : isaSeg.isSeg = true)
+    {g gsId gsPos gsU gsRep : Nat} {gsW : Bool} {gsSeg : Node} {gsRest : List Node}
+    (hgs : (isaSeg :: isaRest)[g]? = some (.loop gsId gsPos gsU gsRep gsW (gsSeg :: gsRest))) (hgseg : gsSeg.isSeg = true)
+    (hopt0 : ∀ (j : Nat) (c : Node), j < a → root[j]? = some c → optional c = true)
+    (hopt1 : ∀ (j : Nat) (c : Node), 0 < j → j < g → (isaSeg :: isaRest)[j]? = some c → optional c = true)
+    {pre : List Emit} {x : Emit} {post out2 out3 : List Emit}
+    (h1 : HList K (ErrKind.mandatoryMissing, ip) [a, g] 1 gsRest pre x post)
+    (h2 : GenList K [a] (g + 1) ((isaSeg :: isaRest).drop (g + 1)) out2)
+    (h3 : GenList K [] (a + 1) (root.drop (a + 1)) out3) :
+    RunErrAt K root rootId
+      (forceLoopStart (forceLoopStart [] [(isaId, 0)] [(isaId, 0), isaSeg.comp])
+        [(isaId, 0), (gsId, 0)] [(isaId, 0), (gsId, 0), gsSeg.comp])
+      [a, g, 0] pre x (post ++ out2 ++ out3) (ErrKind.mandatoryMissing, ip) :=
+  missing_run K root rootId _ hwf hun hroot hisa hgs hgseg hopt0 hopt1 h1 h2 h3
+
+/-- the unrestricted reading of (3), in its weakest form: leaving out the only instance of a required, non-repeatable
+    segment (not the first of its loop) from a conformant group is at least *noticed* by the walk -/
+def mandatory_missing_reported_full : Prop :=
+  ∀ (K : Consts) (root : List Node) (rootId : Nat),
+    WFMap root = true → Unambiguous K root = true →
+    ∀ {a isaId isaPos isaU isaRep : Nat} {isaW : Bool} {isaSeg : Node} {isaRest : List Node},
+    root[a]? = some (.loop isaId isaPos isaU isaRep isaW (isaSeg :: isaRest)) → isaSeg.isSeg = true →
+    ∀ {g gsId gsPos gsU gsRep : Nat} {gsW : Bool} {gsSeg : Node} {gsRest : List Node},
+    (isaSeg :: isaRest)[g]? = some (.loop gsId gsPos gsU gsRep gsW (gsSeg :: gsRest)) → gsSeg.isSeg = true →
+    ∀ (o1 : List Emit) (ipc : List Nat) (s : SegData) (o2 : List Emit) (c : Node),
+    GenList K [a, g] 1 gsRest (o1 ++ (ipc, s) :: o2) → nodeAt root ipc = some c → c.isSeg = true → c.usage = 0 →
+    c.rep = 1 → ipc.getLast? ≠ some 0 →
+    ¬ RunOK K root rootId
+      (forceLoopStart (forceLoopStart [] [(isaId, 0)] [(isaId, 0), isaSeg.comp])
+        [(isaId, 0), (gsId, 0)] [(isaId, 0), (gsId, 0), gsSeg.comp])
+      [a, g, 0] (o1 ++ o2)
+
+theorem runOK_of_b (K : Consts) (root : List Node) (rootId : Nat) : ∀ (out : List Emit) (cnt : Counter) (cur : List Nat),
+    runOKb K root rootId cnt cur out = true → RunOK K root rootId cnt cur out
+  | [], _, _, _ => trivial
+  | e :: r, cnt, cur, h => by
+    simp only [runOKb, Bool.and_eq_true, beq_iff_eq, List.isEmpty_iff] at h
+    exact ⟨h.1.1.1, h.1.1.2, h.1.2, runOK_of_b K root rootId r _ _ h.2⟩
+
+/-! #### non-vacuity on the skeleton `exRoot` of Props/C02Walk.lean (each run is also evaluated by the kernel) -/
+
+def eST : Emit := ([0, 1, 1, 0], sd 15 0 0)
+def eBHT : Emit := ([0, 1, 1, 1, 0], sd 17 0 0)
+def eREF0B : Emit := ([0, 1, 1, 1, 1], sd 18 101 0)
+def eHL : Emit := ([0, 1, 1, 2, 0, 0], sd 2 1 201)
+def eNM1 : Emit := ([0, 1, 1, 2, 0, 2, 0], sd 22 301 0)
+def eSE : Emit := ([0, 1, 1, 3], sd 24 0 0)
+def eGE : Emit := ([0, 1, 2], sd 25 0 0)
+
+example : sfList WalkerGen.exK exRoot = true := by decide +kernel
+
+/-- DETAIL with one 2000 loop: HL, then one 2100 loop: NM1 -/
+theorem gDETAIL : GenChild WalkerGen.exK [0, 1, 1, 2] exDETAIL [eHL, eNM1] :=
+  .wrapper rfl (by decide)
+    (.cons (o1 := [eHL, eNM1]) (o2 := [])
+      (.counted rfl
+        (.more (o1 := [eHL, eNM1]) (o2 := []) (by decide) (by decide)
+          (.loop (s := sd 2 1 201) rfl (by decide +kernel)
+            (.cons (o1 := []) (o2 := [eNM1]) (genChild_none rfl (by decide))
+              (.cons (o1 := [eNM1]) (o2 := [])
+                (.counted rfl
+                  (.more (o1 := [eNM1]) (o2 := []) (by decide) (by decide)
+                    (.loop (s := sd 22 301 0) rfl (by decide +kernel)
+                      (.cons (o1 := []) (o2 := []) (genChild_none rfl (by decide)) .nil))
+                    (.stop (by decide))))
+                .nil)))
+          (.stop (by decide))))
+      .nil)
+
+theorem gSE : GenChild WalkerGen.exK [0, 1, 1, 3] exSE [eSE] := genChild_seg1 (by decide +kernel) (by decide) (by decide)
+theorem gGE : GenChild WalkerGen.exK [0, 1, 2] exGE [eGE] := genChild_seg1 (by decide +kernel) (by decide) (by decide)
+
+/-- HEADER: BHT only -/
+theorem gHEADER0 : GenChild WalkerGen.exK [0, 1, 1, 1] exHEADER [eBHT] :=
+  .counted rfl (.more (o1 := [eBHT]) (o2 := []) (by decide) (by decide)
+    (.loop (s := sd 17 0 0) rfl (by decide +kernel)
+      (.cons (o1 := []) (o2 := []) (genChild_none rfl (by decide))
+        (.cons (o1 := []) (o2 := []) (genChild_none rfl (by decide)) .nil)))
+    (.stop (by decide)))
+
+/-- (1) `ST BHT REF*0B REF*0B HL NM1 SE GE`: REF*0B has `max_use` 1 -/
+theorem exX1 : XList WalkerGen.exK (ErrKind.segMaxCount, [0, 1, 1, 1, 1]) [0, 1] 1 [exSTLOOP, exGE] [eST, eBHT, eREF0B] eREF0B
+    [eHL, eNM1, eSE, eGE] :=
+  .here (pre := [eST, eBHT, eREF0B]) (post := [eHL, eNM1, eSE]) (o2 := [eGE])
+    (.counted rfl (.inside (pre := [eST, eBHT, eREF0B]) (post := [eHL, eNM1, eSE]) (o2 := []) (by decide) (by decide)
+      (.loop (s := sd 15 0 0) (pre := [eBHT, eREF0B]) rfl (by decide +kernel)
+        (.here (pre := [eBHT, eREF0B]) (post := []) (o2 := [eHL, eNM1, eSE])
+          (.counted rfl (.inside (pre := [eBHT, eREF0B]) (post := []) (o2 := []) (by decide) (by decide)
+            (.loop (s := sd 17 0 0) (pre := [eREF0B]) rfl (by decide +kernel)
+              (.here (pre := [eREF0B]) (post := []) (o2 := [])
+                (.counted rfl (.later (o1 := [eREF0B]) (pre := []) (by decide) (by decide) (.seg (by decide +kernel))
+                  (.over (by decide) (by decide) rfl (.seg (by decide +kernel)) rfl)))
+                (.cons (o1 := []) (o2 := []) (genChild_none rfl (by decide)) .nil)))
+            (.stop (by decide))))
+          (.cons (o1 := [eHL, eNM1]) (o2 := [eSE]) gDETAIL (.cons (o1 := [eSE]) (o2 := []) gSE .nil))))
+      (.stop (by decide))))
+    (.cons (o1 := [eGE]) (o2 := []) gGE .nil)
+
+example : RunErrAt WalkerGen.exK exRoot 0 exCnt0 [0, 1, 0] [eST, eBHT, eREF0B] eREF0B ([eHL, eNM1, eSE, eGE] ++ exOut2 ++ [])
+    (ErrKind.segMaxCount, [0, 1, 1, 1, 1]) :=
+  (max_use_exceeded_reported WalkerGen.exK exRoot 0 _ (by decide +kernel) (by decide +kernel) (a := 0) (g := 1)
+    (isaSeg := exISA) (gsSeg := exGS) rfl rfl rfl rfl (by intro j c hj; omega) (by intro j c h1 h2; omega)
+    exX1 exDeriv2 .nil).2
+
+example : runErrAtb WalkerGen.exK exRoot 0 exCnt0 [0, 1, 0] [eST, eBHT, eREF0B] eREF0B ([eHL, eNM1, eSE, eGE] ++ exOut2)
+    (ErrKind.segMaxCount, [0, 1, 1, 1, 1]) = true := by decide +kernel
+
+/-- (2) `ST BHT BHT REF*0B HL NM1 SE GE`: loop HEADER has `repeat` 1 -/
+theorem exX2 : XList WalkerGen.exK (ErrKind.loopMaxCount, [0, 1, 1, 1]) [0, 1] 1 [exSTLOOP, exGE] [eST, eBHT] eBHT
+    [eREF0B, eHL, eNM1, eSE, eGE] :=
+  .here (pre := [eST, eBHT]) (post := [eREF0B, eHL, eNM1, eSE]) (o2 := [eGE])
+    (.counted rfl (.inside (pre := [eST, eBHT]) (post := [eREF0B, eHL, eNM1, eSE]) (o2 := []) (by decide) (by decide)
+      (.loop (s := sd 15 0 0) (pre := [eBHT]) rfl (by decide +kernel)
+        (.here (pre := [eBHT]) (post := [eREF0B]) (o2 := [eHL, eNM1, eSE])
+          (.counted rfl (.later (o1 := [eBHT]) (pre := []) (by decide) (by decide)
+            (.loop (s := sd 17 0 0) rfl (by decide +kernel)
+              (.cons (o1 := []) (o2 := []) (genChild_none rfl (by decide))
+                (.cons (o1 := []) (o2 := []) (genChild_none rfl (by decide)) .nil)))
+            (.over (x := eBHT) (post := [eREF0B]) (by decide) (by decide) rfl
+              (.loop (s := sd 17 0 0) rfl (by decide +kernel)
+                (.cons (o1 := [eREF0B]) (o2 := []) (genChild_seg1 (by decide +kernel) (by decide) (by decide))
+                  (.cons (o1 := []) (o2 := []) (genChild_none rfl (by decide)) .nil)))
+              rfl)))
+          (.cons (o1 := [eHL, eNM1]) (o2 := [eSE]) gDETAIL (.cons (o1 := [eSE]) (o2 := []) gSE .nil))))
+      (.stop (by decide))))
+    (.cons (o1 := [eGE]) (o2 := []) gGE .nil)
+
+example : RunErrAt WalkerGen.exK exRoot 0 exCnt0 [0, 1, 0] [eST, eBHT] eBHT ([eREF0B, eHL, eNM1, eSE, eGE] ++ exOut2 ++ [])
+    (ErrKind.loopMaxCount, [0, 1, 1, 1]) :=
+  (loop_repeat_reported WalkerGen.exK exRoot 0 _ (by decide +kernel) (by decide +kernel) (by decide +kernel) (a := 0) (g := 1)
+    (isaSeg := exISA) (gsSeg := exGS) rfl rfl rfl rfl (by intro j c hj; omega) (by intro j c h1 h2; omega)
+    exX2 exDeriv2 .nil).2
+
+example : runErrAtb WalkerGen.exK exRoot 0 exCnt0 [0, 1, 0] [eST, eBHT] eBHT ([eREF0B, eHL, eNM1, eSE, eGE] ++ exOut2)
+    (ErrKind.loopMaxCount, [0, 1, 1, 1]) = true := by decide +kernel
+
+/-- the open ST loop instance `ST BHT HL NM1`, SE left out -/
+theorem exSTopen : HOneO WalkerGen.exK (ErrKind.mandatoryMissing, [0, 1, 1, 3]) exSE [0, 1, 1] exSTLOOP [eST, eBHT, eHL, eNM1] :=
+  .loop (s := sd 15 0 0) (pre := [eBHT, eHL, eNM1]) rfl (by decide +kernel)
+    (.later (o1 := [eBHT]) (pre := [eHL, eNM1]) gHEADER0
+      (.later (o1 := [eHL, eNM1]) (pre := []) gDETAIL (.gap rfl rfl rfl rfl)))
+
+/-- (3, leaving the loop) `ST BHT HL NM1 GE`: SE left out; GE, a later sibling of the ST loop, reports it -/
+theorem exH3a : HList WalkerGen.exK (ErrKind.mandatoryMissing, [0, 1, 1, 3]) [0, 1] 1 [exSTLOOP, exGE] [eST, eBHT, eHL, eNM1]
+    eGE [] :=
+  .under (c0 := exSE) (.counted rfl (.last (by decide) (by decide) exSTopen))
+    (.hitSeg (s := sd 25 0 0) (o1 := []) (o2 := []) (by decide +kernel) (by decide) (by decide) (by decide) (by decide)
+      (.stop (by decide)) .nil)
+
+example : RunErrAt WalkerGen.exK exRoot 0 exCnt0 [0, 1, 0] [eST, eBHT, eHL, eNM1] eGE ([] ++ exOut2 ++ [])
+    (ErrKind.mandatoryMissing, [0, 1, 1, 3]) :=
+  mandatory_missing_reported WalkerGen.exK exRoot 0 _ (by decide +kernel) (by decide +kernel) (a := 0) (g := 1)
+    (isaSeg := exISA) (gsSeg := exGS) rfl rfl rfl rfl (by intro j c hj; omega) (by intro j c h1 h2; omega)
+    exH3a exDeriv2 .nil
+
+example : runErrAtb WalkerGen.exK exRoot 0 exCnt0 [0, 1, 0] [eST, eBHT, eHL, eNM1] eGE exOut2
+    (ErrKind.mandatoryMissing, [0, 1, 1, 3]) = true := by decide +kernel
+
+/-- (3, re-entering the loop) `ST BHT HL NM1 ST BHT HL NM1 SE GE`: SE left out; the next ST loop instance reports it -/
+theorem exH3b : HList WalkerGen.exK (ErrKind.mandatoryMissing, [0, 1, 1, 3]) [0, 1] 1 [exSTLOOP, exGE] [eST, eBHT, eHL, eNM1]
+    eST [eBHT, eHL, eNM1, eSE, eGE] :=
+  .here (pre := [eST, eBHT, eHL, eNM1]) (post := [eBHT, eHL, eNM1, eSE]) (o2 := [eGE])
+    (.counted rfl
+      (.again (c0 := exSE) (x := eST) (post1 := [eBHT, eHL, eNM1, eSE]) (o2 := []) (by decide) (by decide) exSTopen
+        (by decide) (by decide)
+        (.loop (s := sd 15 0 0) rfl (by decide +kernel)
+          (.cons (o1 := [eBHT]) (o2 := [eHL, eNM1, eSE]) gHEADER0
+            (.cons (o1 := [eHL, eNM1]) (o2 := [eSE]) gDETAIL (.cons (o1 := [eSE]) (o2 := []) gSE .nil))))
+        (.stop (by decide))))
+    (.cons (o1 := [eGE]) (o2 := []) gGE .nil)
+
+example : RunErrAt WalkerGen.exK exRoot 0 exCnt0 [0, 1, 0] [eST, eBHT, eHL, eNM1] eST
+    ([eBHT, eHL, eNM1, eSE, eGE] ++ exOut2 ++ []) (ErrKind.mandatoryMissing, [0, 1, 1, 3]) :=
+  mandatory_missing_reported WalkerGen.exK exRoot 0 _ (by decide +kernel) (by decide +kernel) (a := 0) (g := 1)
+    (isaSeg := exISA) (gsSeg := exGS) rfl rfl rfl rfl (by intro j c hj; omega) (by intro j c h1 h2; omega)
+    exH3b exDeriv2 .nil
+
+example : runErrAtb WalkerGen.exK exRoot 0 exCnt0 [0, 1, 0] [eST, eBHT, eHL, eNM1] eST ([eBHT, eHL, eNM1, eSE, eGE] ++ exOut2)
+    (ErrKind.mandatoryMissing, [0, 1, 1, 3]) = true := by decide +kernel
+
+/-! a variant of `exRoot` in which DTP (second child of loop 2000, inside the transparent DETAIL loop) is required -/
+def exDTPr : Node := .seg 23 0 20 0 1 [] [elID 1 [401], elAN 2]
+def exL2000r : Node := .loop 20 10 0 0 false [exHL, exDTPr, exL2100]
+def exDETAILr : Node := .loop 19 30 1 0 true [exL2000r]
+def exSTLOOPr : Node := .loop 14 20 0 0 false [exST, exHEADER, exDETAILr, exSE]
+def exGSLOOPr : Node := .loop 12 20 0 0 false [exGS, exSTLOOPr, exGE]
+def exISALOOPr : Node := .loop 10 1 0 1 false [exISA, exGSLOOPr, exIEA]
+def exRootR : List Node := [exISALOOPr]
+
+def eDTP : Emit := ([0, 1, 1, 2, 0, 1], sd 23 401 0)
+def eHL2 : Emit := ([0, 1, 1, 2, 0, 0], sd 2 2 201)
+
+/-- (3, later sibling in the same instance) `ST BHT HL NM1 SE GE`: DTP left out; NM1, which opens the later sibling
+    loop 2100, reports it -/
+theorem exH3c : HList WalkerGen.exK (ErrKind.mandatoryMissing, [0, 1, 1, 2, 0, 1]) [0, 1] 1 [exSTLOOPr, exGE] [eST, eBHT, eHL]
+    eNM1 [eSE, eGE] :=
+  .here (pre := [eST, eBHT, eHL]) (post := [eSE]) (o2 := [eGE])
+    (.counted rfl (.inside (pre := [eST, eBHT, eHL]) (post := [eSE]) (o2 := []) (by decide) (by decide)
+      (.loop (s := sd 15 0 0) (pre := [eBHT, eHL]) rfl (by decide +kernel)
+        (.later (o1 := [eBHT]) (pre := [eHL]) gHEADER0
+          (.here (pre := [eHL]) (post := []) (o2 := [eSE])
+            (.wrapper rfl (by decide)
+              (.here (pre := [eHL]) (post := []) (o2 := [])
+                (.counted rfl (.inside (pre := [eHL]) (post := []) (o2 := []) (by decide) (by decide)
+                  (.loop (s := sd 2 1 201) (pre := []) rfl (by decide +kernel)
+                    (.gap (c0 := exDTPr) rfl rfl rfl
+                      (.hitLoop (s := sd 22 301 0) (o := []) (o1 := []) (o2 := []) rfl (by decide +kernel) (by decide)
+                        (by decide) (by decide)
+                        (.cons (o1 := []) (o2 := []) (genChild_none rfl (by decide)) .nil)
+                        (.stop (by decide)) .nil)))
+                  (.stop (by decide))))
+                .nil))
+            (.cons (o1 := [eSE]) (o2 := []) gSE .nil))))
+      (.stop (by decide))))
+    (.cons (o1 := [eGE]) (o2 := []) gGE .nil)
+
+example : RunErrAt WalkerGen.exK exRootR 0 exCnt0 [0, 1, 0] [eST, eBHT, eHL] eNM1 ([eSE, eGE] ++ exOut2 ++ [])
+    (ErrKind.mandatoryMissing, [0, 1, 1, 2, 0, 1]) :=
+  mandatory_missing_reported WalkerGen.exK exRootR 0 _ (by decide +kernel) (by decide +kernel) (a := 0) (g := 1)
+    (isaSeg := exISA) (gsSeg := exGS) rfl rfl rfl rfl (by intro j c hj; omega) (by intro j c h1 h2; omega)
+    exH3c exDeriv2 .nil
+
+example : runErrAtb WalkerGen.exK exRootR 0 exCnt0 [0, 1, 0] [eST, eBHT, eHL] eNM1 ([eSE, eGE] ++ exOut2)
+    (ErrKind.mandatoryMissing, [0, 1, 1, 2, 0, 1]) = true := by decide +kernel
+
+/-! #### the false corners, on concrete witness skeletons -/
+
+/-- **witness for the excluded corner of (3)** (finding "unreported when only the first segment precedes a repeat of
+    the loop"): in `ST BHT HL HL DTP NM1 SE GE IEA` the first 2000 instance consists of HL only, its required DTP is
+    left out and the next segment opens the next 2000 instance — the model accepts the whole sequence, every step
+    answered with the intended node and NO error -/
+theorem mandatory_missing_unreported_witness :
+    runOKb WalkerGen.exK exRootR 0 exCnt0 [0, 1, 0] ([eST, eBHT, eHL, eHL2, eDTP, eNM1, eSE, eGE] ++ exOut2) = true := by
+  decide +kernel
+
+/-- the conformant document the witness is obtained from: `ST BHT HL DTP HL DTP NM1 SE GE` -/
+theorem exConformantR : GenList WalkerGen.exK [0, 1] 1 [exSTLOOPr, exGE]
+    ([eST, eBHT, eHL] ++ eDTP :: [eHL2, eDTP, eNM1, eSE, eGE]) :=
+  .cons (o1 := [eST, eBHT, eHL, eDTP, eHL2, eDTP, eNM1, eSE]) (o2 := [eGE])
+    (.counted rfl (.more (o1 := [eST, eBHT, eHL, eDTP, eHL2, eDTP, eNM1, eSE]) (o2 := []) (by decide) (by decide)
+      (.loop (s := sd 15 0 0) rfl (by decide +kernel)
+        (.cons (o1 := [eBHT]) (o2 := [eHL, eDTP, eHL2, eDTP, eNM1, eSE]) gHEADER0
+          (.cons (o1 := [eHL, eDTP, eHL2, eDTP, eNM1]) (o2 := [eSE])
+            (.wrapper rfl (by decide)
+              (.cons (o1 := [eHL, eDTP, eHL2, eDTP, eNM1]) (o2 := [])
+                (.counted rfl
+                  (.more (o1 := [eHL, eDTP]) (o2 := [eHL2, eDTP, eNM1]) (by decide) (by decide)
+                    (.loop (s := sd 2 1 201) rfl (by decide +kernel)
+                      (.cons (o1 := [eDTP]) (o2 := []) (genChild_seg1 (by decide +kernel) (by decide) (by decide))
+                        (.cons (o1 := []) (o2 := []) (genChild_none rfl (by decide)) .nil)))
+                    (.more (o1 := [eHL2, eDTP, eNM1]) (o2 := []) (by decide) (by decide)
+                      (.loop (s := sd 2 2 201) rfl (by decide +kernel)
+                        (.cons (o1 := [eDTP]) (o2 := [eNM1]) (genChild_seg1 (by decide +kernel) (by decide) (by decide))
+                          (.cons (o1 := [eNM1]) (o2 := [])
+                            (.counted rfl
+                              (.more (o1 := [eNM1]) (o2 := []) (by decide) (by decide)
+                                (.loop (s := sd 22 301 0) rfl (by decide +kernel)
+                                  (.cons (o1 := []) (o2 := []) (genChild_none rfl (by decide)) .nil))
+                                (.stop (by decide))))
+                            .nil)))
+                      (.stop (by decide)))))
+                .nil))
+            (.cons (o1 := [eSE]) (o2 := []) gSE .nil))))
+      (.stop (by decide))))
+    (.cons (o1 := [eGE]) (o2 := []) gGE .nil)
+
+/-- hence the unrestricted statement is false in the model (as it is in pyx12: the finding) -/
+theorem mandatory_missing_reported_full_false : ¬ mandatory_missing_reported_full := by
+  intro hfull
+  have := hfull WalkerGen.exK exRootR 0 (by decide +kernel) (by decide +kernel) (a := 0) (g := 1) (isaSeg := exISA)
+    (gsSeg := exGS) rfl rfl rfl rfl [eST, eBHT, eHL] [0, 1, 1, 2, 0, 1] (sd 23 401 0) [eHL2, eDTP, eNM1, eSE, eGE] exDTPr
+    exConformantR rfl rfl rfl rfl (by decide)
+  apply this
+  apply runOK_of_b
+  decide +kernel
+
+/-- **further corner of (3), same mechanism as the flush by position**: `_flush_mandatory_segs(errh, child.pos)`
+    compares positions of nodes of DIFFERENT loops.  Skeleton = `exRoot` with SE moved to the position of GE (30): in
+    `ST BHT HL NM1 GE IEA` the missing SE is still pending after the step on GE (its position equals GE's), the next
+    call starts with an empty list, and no error is ever raised (this is why `TList.hitSeg` asks for another position
+    also across levels) -/
+def exSEp : Node := .seg 24 0 30 0 1 [] [elAN 1]
+def exRootP : List Node :=
+  [.loop 10 1 0 1 false
+    [exISA, .loop 12 20 0 0 false [exGS, .loop 14 20 0 0 false [exST, exHEADER, exDETAIL, exSEp], exGE], exIEA]]
+
+theorem mandatory_missing_same_position_witness :
+    WFMap exRootP = true ∧ Unambiguous WalkerGen.exK exRootP = true ∧
+    (walk WalkerGen.exK exRootP 0 (runCnt WalkerGen.exK exRootP 0 exCnt0 [0, 1, 0] [eST, eBHT, eHL, eNM1]) eNM1.1 eGE.2).node
+      = some [0, 1, 2] ∧
+    (walk WalkerGen.exK exRootP 0 (runCnt WalkerGen.exK exRootP 0 exCnt0 [0, 1, 0] [eST, eBHT, eHL, eNM1]) eNM1.1 eGE.2).st.errs
+      = [] ∧
+    (walk WalkerGen.exK exRootP 0
+      (walk WalkerGen.exK exRootP 0 (runCnt WalkerGen.exK exRootP 0 exCnt0 [0, 1, 0] [eST, eBHT, eHL, eNM1]) eNM1.1 eGE.2).st.cnt
+      [0, 1, 2] (sd 26 0 0)).st.errs = [] := by
+  decide +kernel
+
+/-! a skeleton with a loop `L` of `repeat` 1 whose nested loop `M` holds a segment with the id of `L`'s first segment -/
+def wA : Node := .seg 30 0 10 0 1 [] [elAN 1]
+def wB : Node := .seg 31 0 10 0 1 [] [elAN 1]
+def wA' : Node := .seg 30 0 20 1 1 [] [elAN 1]
+def wM : Node := .loop 41 20 1 0 false [wB, wA']
+def wL : Node := .loop 40 20 1 1 false [wA, wM]
+def wGSLOOP : Node := .loop 12 20 0 0 false [exGS, wL, exGE]
+def wRoot : List Node := [.loop 10 1 0 1 false [exISA, wGSLOOP, exIEA]]
+
+def eA : Emit := ([0, 1, 1, 0], sd 30 0 0)
+def eB : Emit := ([0, 1, 1, 1, 0], sd 31 0 0)
+
+/-- `A B A GE`: loop `L` (repeat 1) twice -/
+theorem wX : XList WalkerGen.exK (ErrKind.loopMaxCount, [0, 1, 1]) [0, 1] 1 [wL, exGE] [eA, eB] eA [eGE] :=
+  .here (pre := [eA, eB]) (post := []) (o2 := [eGE])
+    (.counted rfl (.later (o1 := [eA, eB]) (pre := []) (by decide) (by decide)
+      (.loop (s := sd 30 0 0) rfl (by decide +kernel)
+        (.cons (o1 := [eB]) (o2 := [])
+          (.counted rfl (.more (o1 := [eB]) (o2 := []) (by decide) (by decide)
+            (.loop (s := sd 31 0 0) rfl (by decide +kernel)
+              (.cons (o1 := []) (o2 := []) (genChild_none rfl (by decide)) .nil))
+            (.stop (by decide))))
+          .nil))
+      (.over (x := eA) (post := []) (by decide) (by decide) rfl
+        (.loop (s := sd 30 0 0) rfl (by decide +kernel)
+          (.cons (o1 := []) (o2 := []) (genChild_none rfl (by decide)) .nil))
+        rfl)))
+    (.cons (o1 := [eGE]) (o2 := []) gGE .nil)
+
+/-- **witness for the hypothesis `sfList` of (2)**: the skeleton is well-formed and `Unambiguous`, but not `sfList`; the
+    second `A` is answered with the node `A'` inside the nested loop `M`, not with `L`'s first segment, and without
+    any error: the surplus instance of `L` goes unreported -/
+theorem loop_repeat_unreported_witness :
+    WFMap wRoot = true ∧ Unambiguous WalkerGen.exK wRoot = true ∧ sfList WalkerGen.exK wRoot = false ∧
+    (walk WalkerGen.exK wRoot 0 (runCnt WalkerGen.exK wRoot 0 exCnt0 [0, 1, 0] [eA, eB]) eB.1 eA.2).node = some [0, 1, 1, 1, 1] ∧
+    (walk WalkerGen.exK wRoot 0 (runCnt WalkerGen.exK wRoot 0 exCnt0 [0, 1, 0] [eA, eB]) eB.1 eA.2).st.errs = [] := by
+  decide +kernel
+
+theorem loop_repeat_reported_full_false : ¬ loop_repeat_reported_full := by
+  intro hfull
+  have := hfull WalkerGen.exK wRoot 0 [0, 1, 1] (by decide +kernel) (by decide +kernel) (a := 0) (g := 1) (isaSeg := exISA)
+    (gsSeg := exGS) rfl rfl rfl rfl (by intro j c hj; omega) (by intro j c h1 h2; omega) wX exDeriv2 .nil
+  have h2 := this.2.1
+  revert h2
+  decide +kernel
 
 end Pyx12Verif.C03
